@@ -60,8 +60,8 @@ Theorem C02_div_mod_results :
     /\ (div_val a b DHalf = Some q -> s16 a <> 0 /\ q = sext16 (w16 (Z.quot (s16 b) (s16 a))))
     /\ (div_val a b DByte = Some q -> w8 a <> 0 /\ q = w8 b / w8 a).
 Proof.
-  intros a b q. repeat split; try apply (div_word_spec a b q); try apply (mod_word_spec a b q);
-    try apply (div_half_spec a b q); try apply (div_byte_spec a b q); assumption.
+  intros a b q. split; [exact (div_word_spec a b q)|]. split; [exact (mod_word_spec a b q)|].
+  split; [exact (div_half_spec a b q) | exact (div_byte_spec a b q)].
 Qed.
 Print Assumptions C02_div_mod_results.
 
